@@ -6,7 +6,7 @@
 // config lines (see tools/chk_pipeline.py for the generators):
 //   seed N | strategy random|pct|starve|rr | pct_depth D | starve T K | budget N | spurious K
 //   cap BYTES | fill 0|1 | streams 1|2
-//   stream S frames N w W h H type u8|u16|i8|i16 avg K delay_ms D trigger 0|1 camfail I stofail J slow K pace P zero Z
+//   stream S frames N w W h H type u8|u16|i8|i16|u10|u12|u14|f32 avg K delay_ms D trigger 0|1 camfail I stofail J slow K pace P zero Z
 //   prog OP...      OP = start | stop | abort | map S | unmap S K | trigger S | state | yield K | waitstor S N | configure
 //   aborter DELAY abort|stop
 //   schedule T... | out FILE
@@ -160,6 +160,9 @@ tyname(enum SampleType t)
         case SampleType_i8: return "i8";
         case SampleType_i16: return "i16";
         case SampleType_f32: return "f32";
+        case SampleType_u10: return "u10";
+        case SampleType_u12: return "u12";
+        case SampleType_u14: return "u14";
         default: return "other";
     }
 }
@@ -169,6 +172,9 @@ sample_at(const uint8_t* base, enum SampleType t, size_t i)
     switch (t) {
         case SampleType_u8: return (double)base[i];
         case SampleType_i8: return (double)((const int8_t*)base)[i];
+        case SampleType_u10:
+        case SampleType_u12:
+        case SampleType_u14:
         case SampleType_u16: return (double)((const uint16_t*)base)[i];
         case SampleType_i16: return (double)((const int16_t*)base)[i];
         default: return 0;
@@ -751,7 +757,9 @@ aborter(void* arg)
 static enum SampleType
 parse_type(const char* s)
 {
-    return !strcmp(s, "u16") ? SampleType_u16 : !strcmp(s, "i8") ? SampleType_i8 : !strcmp(s, "i16") ? SampleType_i16 : SampleType_u8;
+    return !strcmp(s, "u16") ? SampleType_u16 : !strcmp(s, "i8") ? SampleType_i8 : !strcmp(s, "i16") ? SampleType_i16 :
+           !strcmp(s, "u10") ? SampleType_u10 : !strcmp(s, "u12") ? SampleType_u12 : !strcmp(s, "u14") ? SampleType_u14 :
+           !strcmp(s, "f32") ? SampleType_f32 : SampleType_u8;
 }
 
 int
